@@ -289,6 +289,14 @@ theorem iteF_lite (ext : Nat → Nat) : ∀ (f : Nat) (g u v : Int) (m : Mgr), L
       · next he _ _ => exact h.err _ (noNR_of_eq (topCofactor_noNR _ _ _) he)
     · exact h.err _ (by simp)
 
+/-- exact counts through `_ite` for ARBITRARY operands and fuel, same ledger (local version; the
+primed name avoids a clash with the lemma of the dynamic-reordering slice) -/
+theorem iteF_refExact' (m : Mgr) (ext : Nat → Nat) (hc : m.tbl.Closed) (hr : RefExact m ext)
+    (hoff : m.lastLen = none) (f : Nat) (g u v : Int) :
+    RefExact (iteF f g u v m).2 ext ∧ (iteF f g u v m).2.tbl.Closed :=
+  have h := iteF_lite ext f g u v m ⟨hc, hr, hoff⟩
+  ⟨h.1.exact, h.1.closed⟩
+
 theorem iteRaw_lite (ext : Nat → Nat) (g u v : Int) (m : Mgr) (h : Lite ext m) :
     LiteOut ext (iteRaw g u v m) := by
   have : iteRaw g u v m = iteF (m.nvars + 2) g u v m := by
